@@ -88,7 +88,7 @@ def _residue(draw, resname, prefix):
         elif kind == "3fd":
             params = [draw(st.sampled_from([0.3, 0.6])), draw(st.sampled_from([0.1, 0.25]))]
         elif kind == "3fad":
-            params = [draw(st.sampled_from([100.0, 120.0])), draw(st.sampled_from([0.1, 0.2]))]
+            params = [draw(st.sampled_from([100.0, 120.0, -120.0, 210.0])), draw(st.sampled_from([0.1, 0.2]))]
         elif kind == "3out":
             params = [draw(st.sampled_from([0.2, 0.4])), draw(st.sampled_from([0.1, 0.3])), draw(st.sampled_from([0.5, -1.0]))]
         elif kind == "4fdn":
@@ -351,7 +351,7 @@ def check_pure(spec, ctx):
     pts = [np.array(p) for p in spec["points"][:need]]
     params = list(spec["params"])
     if kind == "3fad":
-        params[0] = 60.0 + 100.0 * params[0]
+        params[0] = -150.0 + 240.0 * params[0]        # -138 .. 210 degrees: negative and reflex angles too
     sec, func = {"2": ("virtual_sites2", "1"), "3": ("virtual_sites3", "1"), "3fd": ("virtual_sites3", "2"),
                  "3fad": ("virtual_sites3", "3"), "3out": ("virtual_sites3", "4"), "4fdn": ("virtual_sites4", "2"),
                  "n": ("virtual_sitesn", "1")}[kind]
